@@ -54,6 +54,10 @@ class TemplateModel:
                 + "\n"
                 + "".join(f"SPDX-License-Identifier: {e}\n" for e in spdx_expressions)
             )
+        if k == "extra-copyright-no-licence":
+            return "".join(f"{ln}\n" for ln in copyright_lines) + "SPDX-FileCopyrightText: ACME Corp\n"
+        if k == "extra-licence-no-copyright":
+            return "".join(f"SPDX-License-Identifier: {e}\n" for e in spdx_expressions) + "SPDX-License-Identifier: CC0-1.0\n"
         out = []
         if k not in ("no-copyright", "nothing"):
             for ln in copyright_lines:
@@ -141,11 +145,54 @@ class ListSet(list):
         if x not in self:
             self.append(x)
 
-    def union(self, other):
+    def union(self, *others):
         out = ListSet(self)
-        for x in other:
-            out.add(x)
+        for other in others:
+            for x in other:
+                out.add(x)
         return out
+
+    __or__ = union
+
+    def difference(self, other):
+        o = list(other)
+        return ListSet([x for x in self if x not in o])
+
+    __sub__ = difference
+
+    def intersection(self, other):
+        o = list(other)
+        return ListSet([x for x in self if x in o])
+
+    __and__ = intersection
+
+    def symmetric_difference(self, other):
+        return self.difference(other).union(ListSet(list(other)).difference(self))
+
+    __xor__ = symmetric_difference
+
+    def issubset(self, other):
+        o = list(other)
+        return all(x in o for x in self)
+
+    __le__ = issubset
+
+    def issuperset(self, other):
+        return all(x in self for x in other)
+
+    __ge__ = issuperset
+
+    def copy(self):
+        return ListSet(self)
+
+    def discard(self, x):
+        if x in self:
+            self.remove(x)
+
+    def update(self, *others):
+        for other in others:
+            for x in other:
+                self.add(x)
 
 
 def story(c0, c1):
@@ -166,12 +213,43 @@ def story(c0, c1):
     return ("ok" if ok else "unreadable"), holder, contributor, line, result, (cop, lic, con)
 
 
+import re as _re
+
+END_ONLY = PyRe(_re.compile(ex._END_PATTERN.pattern if hasattr(ex._END_PATTERN, "pattern") else ex._END_PATTERN))
+
+
+def _line_prefix():
+    if TEMPLATE == "commented":
+        return "# "
+    if MULTI or not STYLE.can_handle_single():
+        return STYLE.INDENT_BEFORE_MIDDLE + STYLE.MULTI_LINE.middle + STYLE.INDENT_AFTER_MIDDLE
+    return STYLE.SINGLE_LINE + STYLE.INDENT_AFTER_SINGLE
+
+
 def known_key(outcome, c0, c1):
+    """Carve-outs (DESIGN §2.8).  (1) a template that drops exactly one kind is accepted because the
+    post-render check joins its two comparisons with 'and';  (2) with a faithful template, a value the
+    READER truncates (it ends like a comment terminator, or like the mirrored line prefix - C02's
+    findings) is written all the same, for the same reason.  Nothing else is excused."""
     if outcome != "unreadable":
         return None
     if TEMPLATE in ("no-licence", "no-copyright"):
         return "post-render-check-uses-and"
-    return "written-header-reads-back-differently"
+    if TEMPLATE in ("default", "commented", "no-contributors"):
+        value = text_of(c0, c1)
+        m = END_ONLY.search(value)
+        if m is not None and m.start() < len(value):
+            return "written-header-reads-back-differently"
+        pre = _line_prefix().strip()
+        if WHERE == "contributor" and pre and value.endswith(pre[::-1]):
+            return "written-header-reads-back-differently"
+        if WHERE == "contributor":
+            for p in ex._COPYRIGHT_PATTERNS:
+                if p.search(value) is not None:
+                    # the copyright patterns are searched anywhere in every line: a contributor (or any text)
+                    # containing '© ', 'Copyright ' ... is ALSO read as a copyright notice
+                    return "contributor-text-read-as-copyright"
+    return None
 
 
 def _body(c0, c1):
@@ -203,3 +281,56 @@ def explain_hdr(c0, c1):
 
 
 EXPLAIN = {"_hdr": explain_hdr}
+
+
+# ------------------------------------------------------------------ real Jinja templates render the request verbatim
+import os as _os  # noqa: E402
+from pathlib import Path as _Path  # noqa: E402
+
+import reuse.cli.annotate as _ca  # noqa: E402
+from vf.harness.common import native  # noqa: E402
+
+FIXTURE = _Path(_os.path.join(_os.path.dirname(_os.path.dirname(_os.path.abspath(__file__))), "fixtures", "proj"))
+
+
+class _FixtureProject:
+    root = FIXTURE
+
+
+@native
+def _render_real(which, c):
+    ch = chr(c)
+    holder = f"Jane {ch} Doe <jane{ch}@example.org>"
+    contributor = f"Smith {ch} Sons"
+    line = cr.make_copyright_line(holder, "2020", "spdx")
+    if which == 0:
+        template, commented = hd.DEFAULT_TEMPLATE, False
+    else:
+        template, commented = _ca.get_template(["", "custom", "boxed"][which], _FixtureProject)
+    rendered = template.render(copyright_lines=[line], contributor_lines=[contributor], spdx_expressions=["MIT"])
+    lines = [l[2:] if commented and l.startswith("# ") else l for l in rendered.split("\n")]
+    return (line in lines) and (f"SPDX-FileContributor: {contributor}" in lines) and ("SPDX-License-Identifier: MIT" in lines) and (commented == (which == 2)), holder, rendered
+
+
+def _jinja(which: int, c: int) -> bool:
+    """
+    pre: 0 <= which < 3 and 32 <= c < 127
+    post: _
+    """
+    return _render_real(which, c)[0]
+
+
+def _jinja_reach(which: int, c: int) -> bool:
+    """
+    pre: 0 <= which < 3 and 32 <= c < 127
+    post: False
+    """
+    return _render_real(which, c)[0]
+
+
+def explain_jinja(which, c):
+    ok, holder, rendered = _render_real(which, c)
+    return {"template": ["default", "custom (project template)", "boxed.commented (project template)"][which], "character": chr(c), "holder": holder, "rendered": rendered}
+
+
+EXPLAIN["_jinja"] = explain_jinja
